@@ -61,35 +61,41 @@ fn style_of(s: &str) -> UnderlineStyle {
     }
 }
 
-/// FaceAttrs with exactly these raw bits, built through the public operators
-/// (`|=` ORs the raw bits, so the unused underline codes 6 and 7 are reachable too).
+/// FaceAttrs with these packed bits (3 bits underline style code 0..=5, then the five flags), built
+/// through the public constants and `|`.  Every public operation on FaceAttrs goes through
+/// pack(underline(), flags), so the style codes 6 and 7 cannot be constructed; what was built is read
+/// back through the public accessors and must be what was asked for.
 pub fn attrs_from_bits(bits: u64) -> FaceAttrs {
     let mut a = FaceAttrs::EMPTY;
-    match bits & 7 {
-        1 => a |= FaceAttrs::UNDERLINE,
-        2 => a |= FaceAttrs::UNDERLINE_DOUBLE,
-        3 => a |= FaceAttrs::UNDERLINE_CURLY,
-        4 => a |= FaceAttrs::UNDERLINE_DOTTED,
-        5 => a |= FaceAttrs::UNDERLINE_DASHED,
-        6 => {
-            a |= FaceAttrs::UNDERLINE_DOUBLE;
-            a |= FaceAttrs::UNDERLINE_DOTTED;
-        }
-        7 => {
-            a |= FaceAttrs::UNDERLINE_CURLY;
-            a |= FaceAttrs::UNDERLINE_DOTTED;
-        }
-        _ => {}
-    }
-    for (k, f) in [FaceAttrs::BOLD, FaceAttrs::ITALIC, FaceAttrs::BLINK, FaceAttrs::REVERSE, FaceAttrs::STRIKE]
-        .into_iter()
-        .enumerate()
-    {
+    let style = match bits & 7 {
+        1 => UnderlineStyle::Straight,
+        2 => UnderlineStyle::Double,
+        3 => UnderlineStyle::Curly,
+        4 => UnderlineStyle::Dotted,
+        5 => UnderlineStyle::Dashed,
+        0 => UnderlineStyle::None,
+        other => panic!("harness: underline style code {} is not constructible", other),
+    };
+    a |= FaceAttrs::from(style);
+    let flags = [FaceAttrs::BOLD, FaceAttrs::ITALIC, FaceAttrs::BLINK, FaceAttrs::REVERSE, FaceAttrs::STRIKE];
+    for (k, f) in flags.into_iter().enumerate() {
         if bits & (8 << k) != 0 {
-            a |= f;
+            a = a | f;
         }
     }
+    // read back
+    assert!(a.underline() == style, "harness: FaceAttrs underline read back differs");
+    for (k, f) in flags.into_iter().enumerate() {
+        assert!(a.contains(f) == (bits & (8 << k) != 0), "harness: FaceAttrs flag read back differs");
+    }
+    assert!(a.is_empty() == (bits & 255 == 0), "harness: FaceAttrs emptiness read back differs");
     a
+}
+
+/// the attribute sets that exist: style code 0..=5 x 32 flag sets
+pub fn valid_bits(bits: u64) -> u64 {
+    let b = bits & 255;
+    if b & 7 > 5 { (b & !7) | ((b & 7) - 2) } else { b }
 }
 
 fn big(v: &Value) -> i128 {
@@ -146,7 +152,7 @@ fn build(c: &Value) -> (TerminalCommand, String, Vec<RGBA>) {
         "Face" => {
             let fg = rgba_of(&c["fg"]);
             let bg = rgba_of(&c["bg"]);
-            let bits = c["bits"].as_u64().unwrap_or(0) & 255;
+            let bits = valid_bits(c["bits"].as_u64().unwrap_or(0));
             colors.extend(fg);
             colors.extend(bg);
             (
@@ -338,7 +344,9 @@ pub fn run(input: &Value) -> Case {
         coq_cmds.push(coq_cmd);
         colors.extend(cs);
     }
-    let kind = if stream.is_some() { "Stream".to_string() } else { cmd_values[0]["t"].as_str().unwrap_or("Reset").to_string() };
+    let kind = if stream.is_some() {
+        if input["kind"] == "repeat" { "StreamRepeat".to_string() } else { "Stream".to_string() }
+    } else { cmd_values[0]["t"].as_str().unwrap_or("Reset").to_string() };
     let mut oracle = vec![];
     let mut seen: Vec<RGBA> = vec![];
     if caps.depth != ColorDepth::TrueColor {
@@ -506,7 +514,7 @@ fn rand_cmd(rng: &mut Rng) -> Value {
             };
             json!({"t": "Char", "c": c})
         }
-        1 | 2 | 3 => json!({"t": "Face", "fg": ocolor(rng, 60), "bg": ocolor(rng, 60), "bits": rng.below(256)}),
+        1 | 2 | 3 => json!({"t": "Face", "fg": ocolor(rng, 60), "bg": ocolor(rng, 60), "bits": valid_bits(rng.below(256))}),
         4 | 5 | 6 => {
             let ob = |rng: &mut Rng| -> Value {
                 match rng.below(3) {
@@ -571,6 +579,107 @@ fn rand_cmd(rng: &mut Rng) -> Value {
     }
 }
 
+/// commands whose effect is a piece of terminal state: candidates for being sent twice
+fn stateful_cmds(rng: &mut Rng) -> Vec<Value> {
+    let face = json!({"t": "Face", "fg": color_pool(rng), "bg": null, "bits": 9});
+    vec![
+        json!({"t": "KeyboardLevel", "level": "5"}),
+        json!({"t": "KeyboardLevel", "level": "0"}),
+        json!({"t": "KeyboardLevel", "level": "3"}),
+        json!({"t": "DecModeSet", "enable": true, "mode": "AltScreen"}),
+        json!({"t": "DecModeSet", "enable": false, "mode": "AltScreen"}),
+        json!({"t": "DecModeSet", "enable": false, "mode": "VisibleCursor"}),
+        json!({"t": "DecModeSet", "enable": true, "mode": "MouseSGR"}),
+        json!({"t": "DecModeSet", "enable": true, "mode": "BracketedPaste"}),
+        face,
+        json!({"t": "Face", "fg": null, "bg": null, "bits": 0}),
+        json!({"t": "FaceModify", "reset": false, "fg": null, "bg": color_pool(rng), "underline": "UCurly", "ucolor": null,
+               "bold": true, "italic": null, "blink": null, "strike": false}),
+        json!({"t": "FaceModify", "reset": true, "fg": null, "bg": null, "underline": null, "ucolor": null,
+               "bold": null, "italic": null, "blink": null, "strike": null}),
+        json!({"t": "CursorTo", "row": "3", "col": "7"}),
+        json!({"t": "CursorMove", "row": "-1", "col": "2"}),
+        json!({"t": "ScrollRegion", "start": "1", "end": "10"}),
+        json!({"t": "ScrollRegion", "start": "0", "end": "0"}),
+        json!({"t": "Title", "title": "t"}),
+        json!({"t": "Color", "name": {"palette": "1"}, "color": [1, 2, 3, 255]}),
+        json!({"t": "Reset"}),
+        json!({"t": "CursorSave"}),
+        json!({"t": "CursorRestore"}),
+        json!({"t": "EraseScreen"}),
+        json!({"t": "Char", "c": 120}),
+    ]
+}
+
+/// what may stand between two sends of the same command and make the terminal forget it
+fn separators() -> Vec<Value> {
+    vec![
+        json!({"t": "Reset"}),
+        json!({"t": "DecModeSet", "enable": true, "mode": "AltScreen"}),
+        json!({"t": "DecModeSet", "enable": false, "mode": "AltScreen"}),
+        json!({"t": "KeyboardLevel", "level": "1"}),
+        json!({"t": "DecModeSet", "enable": true, "mode": "VisibleCursor"}),
+        json!({"t": "DecModeSet", "enable": false, "mode": "MouseSGR"}),
+        json!({"t": "Face", "fg": null, "bg": [9, 9, 9, 255], "bits": 16}),
+        json!({"t": "FaceModify", "reset": true, "fg": null, "bg": null, "underline": null, "ucolor": null,
+               "bold": null, "italic": null, "blink": null, "strike": null}),
+        json!({"t": "CursorTo", "row": "0", "col": "0"}),
+        json!({"t": "ScrollRegion", "start": "2", "end": "3"}),
+        json!({"t": "Title", "title": "other"}),
+        json!({"t": "Char", "c": 65}),
+    ]
+}
+
+/// Streams with deliberate repetitions through ONE encoder object: [x, x], [x, sep, x] for every
+/// stateful command x and separator, and longer random mixtures.  An encoder that remembers what it
+/// sent (and skips a repeat) is caught whenever the terminal has forgotten in between.
+fn repeat_streams(rng: &mut Rng, random: usize, v: &mut Vec<Value>) {
+    let seps = separators();
+    for (k, kitty) in [true, false].into_iter().enumerate() {
+        let xs = stateful_cmds(rng);
+        let depth = DEPTHS[k % 3];
+        for x in &xs {
+            v.push(json!({"caps": caps_json(depth, kitty, false), "kind": "repeat", "cmds": [x, x]}));
+            for (i, sep) in seps.iter().enumerate() {
+                // without the kitty capability only a third of the separators (the keyboard arms are silent)
+                if !kitty && i % 3 != 0 {
+                    continue;
+                }
+                v.push(json!({"caps": caps_json(depth, kitty, false), "kind": "repeat", "cmds": [x, sep, x]}));
+            }
+        }
+        // alternate-screen round trips with the keyboard level re-sent on each screen
+        let kl = |l: &str| json!({"t": "KeyboardLevel", "level": l});
+        let alt = |e: bool| json!({"t": "DecModeSet", "enable": e, "mode": "AltScreen"});
+        v.push(json!({"caps": caps_json(depth, kitty, false), "kind": "repeat",
+                      "cmds": [kl("5"), alt(true), kl("5"), alt(false), kl("5"), alt(true), kl("5"), {"t": "Reset"}, kl("5")]}));
+        v.push(json!({"caps": caps_json(depth, kitty, false), "kind": "repeat",
+                      "cmds": [alt(true), alt(true), kl("0"), alt(false), alt(false), kl("0"), {"t": "Reset"}, kl("0"), alt(true), kl("5")]}));
+    }
+    for _ in 0..random {
+        let xs = stateful_cmds(rng);
+        let x = rng.pick(&xs).clone();
+        let len = 3 + rng.below(7) as usize;
+        let mut cmds = vec![x.clone()];
+        while cmds.len() < len {
+            let c = match rng.below(5) {
+                0 | 1 => x.clone(),
+                2 => rng.pick(&seps).clone(),
+                3 => rng.pick(&xs).clone(),
+                _ => loop {
+                    let c = rand_cmd(rng);
+                    if c["t"] != "Raw" {
+                        break c;
+                    }
+                },
+            };
+            cmds.push(c);
+        }
+        cmds.push(x);
+        v.push(json!({"caps": rand_caps(rng), "kind": "repeat", "cmds": cmds}));
+    }
+}
+
 pub fn generate(rng: &mut Rng, n: usize, tier: &str) -> Vec<Value> {
     let thorough = tier == "thorough";
     let mut v = vec![];
@@ -593,10 +702,10 @@ pub fn generate(rng: &mut Rng, n: usize, tier: &str) -> Vec<Value> {
             }
         }
     }
-    // (b) every attribute set (all 256 raw values: 5 flags x 8 underline codes) under every depth,
+    // (b) every attribute set (6 underline styles x 32 flag sets; the codes 6 and 7 do not exist) under every depth,
     //     with all four colour presence combinations cycling
     for depth in DEPTHS {
-        for bits in 0..256u64 {
+        for bits in (0..256u64).filter(|b| b & 7 <= 5) {
             let reps = if thorough { 4 } else { 1 };
             for r in 0..reps {
                 let k = if thorough { r } else { rng.below(4) };
@@ -665,6 +774,8 @@ pub fn generate(rng: &mut Rng, n: usize, tier: &str) -> Vec<Value> {
     v.push(json!({"caps": caps, "cmds": [{"t": "Char", "c": 0x9b}, {"t": "Char", "c": 50}, {"t": "Char", "c": 74}]}));
     v.push(json!({"caps": caps, "cmd": {"t": "Termcap", "names": ["", "Co"]}}));
     v.push(json!({"caps": caps, "cmd": {"t": "Termcap", "names": ["\u{e9}\u{20ac}\u{1f600}", "TN"]}}));
+    // (e2) repetitions of stateful commands through one encoder object
+    repeat_streams(rng, if thorough { 4000 } else { 300 }, &mut v);
     // (f) random commands under random capabilities; every fifth case is a stream of 2..6 commands
     //     (no Raw) through one encoder object
     let fixed = v.len();
